@@ -163,6 +163,7 @@ type workerOut struct {
 	Samples    []map[string]any         `json:"samples"`
 	WallS      float64                  `json:"wall_s"`
 	Nondet     []string                 `json:"nondeterministic"`
+	HashList   []string                 `json:"log_hash_list,omitempty"`
 }
 
 func countDraws(m map[string][]uint32) int {
@@ -323,6 +324,9 @@ func shrink(t *testing.T, sc *Scenario, tier string, streams map[string][]uint32
 
 func matchKnown(class string, known []string) bool {
 	for _, k := range known {
+		if k == "*" {
+			return true
+		}
 		if k == class || (strings.HasSuffix(k, "*") && strings.HasPrefix(class, strings.TrimSuffix(k, "*"))) {
 			return true
 		}
@@ -408,6 +412,9 @@ func TestSim(t *testing.T) {
 			out.Leaked++
 		}
 		sched[r.SchedHash] = true
+		if os.Getenv("VERIF_HASHLIST") != "" {
+			out.HashList = append(out.HashList, r.LogHash)
+		}
 		isNontrivial := nontrivialProbe == ""
 		for _, p := range strings.Split(nontrivialProbe, ",") {
 			if p != "" && r.Probes[p] > 0 {
